@@ -430,7 +430,7 @@ func init() {
 		Init: c19Init,
 		Cases: func(tier string) int {
 			if tier == "thorough" {
-				return 100000
+				return 600000
 			}
 			return 4000
 		},
